@@ -1,0 +1,31 @@
+//go:build verif
+
+package types
+
+// Contracts for the govc verifier (/verif). Comment-only file: it contains no
+// executable code and is compiled only with the build tag `verif`.
+
+//@ spec func inI64(x int) bool = -9223372036854775808 <= x && x <= 9223372036854775807
+
+// ---------------------------------------------------------------- decimal.go
+
+//@ func newDecimal
+//@   props C12
+//@   arith checked
+//@   safety
+//@   results d, err
+//@   requires -10000 < tenThousandths && tenThousandths < 10000
+//@   requires (intPart > 0 ==> tenThousandths >= 0) && (intPart < 0 ==> tenThousandths <= 0)
+//@   ensures (err == nil) == inI64(intPart*10000 + tenThousandths)
+//@   ensures err == nil ==> d.value == intPart*10000 + tenThousandths
+//@   ensures err != nil ==> errIs(err, errDecimal)
+
+//@ func NewDecimal
+//@   props C12
+//@   arith checked
+//@   safety
+//@   results d, err
+//@   wraps "i * int64(math.Pow10(exponent))"
+//@   ensures exact: (err == nil) == (-4 <= exponent && exponent <= 14 && inI64(i * pow10(exponent+4)))
+//@   ensures value: err == nil ==> d.value == i * pow10(exponent+4)
+//@   ensures class: err != nil ==> errIs(err, errDecimal)
